@@ -7,5 +7,6 @@ CONSTANTS
   MinSize = 2
   CanFail = TRUE
   Oversized = "alone"
+  AttachFirst = "ifgrew"
 INVARIANT Property
 CHECK_DEADLOCK FALSE
